@@ -111,6 +111,24 @@ def run(ctx, factor):
                 ops[k] = ops[k] + g.pick(["d", "0", "x"]) if not ops[k].endswith(")") else "%" + ops[k]
                 base[j] = (a, m, ops)
             one(ctx, doc, base, "full-match-near-miss")
+        # a name differing from the listing only in letter case does not occur in it (matching is case-sensitive)
+        if g.chance(0.2):
+            import copy
+            d2 = copy.deepcopy(doc)
+            j = g.r.randrange(len(d2["pattern"]))
+            it = d2["pattern"][j]
+            if isinstance(it, str):
+                d2["pattern"][j] = it.upper()
+            elif isinstance(it, dict):
+                k = next(iter(it))
+                if isinstance(it[k], list) and it[k] and g.chance(0.5):
+                    a = g.r.randrange(len(it[k]))
+                    if isinstance(it[k][a], str):
+                        it[k][a] = it[k][a].upper()
+                else:
+                    d2["pattern"][j] = {k.upper(): it[k]}
+            if d2 != doc:
+                one(ctx, d2, gen_rules.realise(g, doc), "letter-case-near-miss")
         if rep.violations and factor > 1:
             return
 
